@@ -133,6 +133,10 @@ def run_op(spec, op, lazy=False):
 
 def dask_unsafe(spec, op):
     """dask deviates from NumPy for negative-step slices whose bounds lie outside the axis: run those eagerly only"""
+    if op["op"] == "reduce":  # dask accepts a repeated axis (NumPy: ValueError "duplicate value in 'axis'")
+        nd = len(spec["shape"])
+        ax = [a if a >= 0 else a + nd for a in op["axes"]]
+        return len(set(ax)) != len(ax)
     if op["op"] != "get":
         return False
     dim = 0
